@@ -211,7 +211,7 @@ def run(arg, pid, tier, seed):
             nontriv += 1
         if len(samples) < 3:
             samples.append(dict(problem=pb, solutions=len(ref)))
-        cfgs = CONFIGS if pid in ("C02", "C01", "C10", "C04") else CONFIGS[:: 5]
+        cfgs = CONFIGS if pid in ("C02", "C01", "C10", "C04", "C08") else CONFIGS[:: 5]
         for cfg in cfgs:
             ev += 1
             try:
